@@ -40,7 +40,7 @@ UNITS = [
     # decidable by a contract on the generator; this harness executes the generated artefacts on a list of examples.
     Native("generated JSON schema and XSD against documents written by the generated Python SDK",
            ["C11", "C12", "C13", "C14"], "native.c11:bounded", kind="examples",
-           bound="one meta-model (enumeration; constrained primitives with length and pattern constraints and a descendant "
+           bound="one meta-model (enumeration; a chain of constrained primitives declared child-first; a concrete class with a concrete descendant and an abbreviation in its name; constrained primitives with length and pattern constraints and a descendant "
                  "primitive tightening both bounds; a byte-array primitive with both bounds; an abstract parent with a "
                  "length invariant and two concrete children, one tightening the inherited property; optional list with "
                  "size bounds; all primitive types): both schemas must be valid schemas with resolving $refs; 10 valid "
@@ -60,7 +60,7 @@ UNITS = [
     # C08 / C10 / C29: run-time behaviour of the generated Python SDK -- decided by executing it, on a list of examples
     Native("behaviour of the generated Python SDK: verification, round trips, traversal", ["C08", "C10", "C29"],
            "native.c10:bounded", kind="examples",
-           bound="the meta-model of native/c11.py: 15 instances (valid, one or several invariants broken, values at and "
+           bound="the meta-model of native/c11.py: 288 value combinations of a class with 18 arithmetic / boolean invariants (operator precedence and nesting); 17 instances (valid, one or several invariants broken, abbreviated class names, values at and "
                  "beyond every bound, floats, 62-bit integers, carriage returns, astral characters, empty list / bytes / "
                  "string): verify() must report exactly the invariants that are false when evaluated directly in Python "
                  "(descriptions verbatim, paths through the offending property); JSON and XML round trips field by "
